@@ -3,7 +3,7 @@
    Gen/Consts.v).  An edit to one of these Go functions changes the generated
    text and breaks the corresponding lemma here. *)
 From Coq Require Import ZArith List Bool Lia.
-From Verif Require Import Base.Word64 Model.Sketch Gen.Consts Gen.Kernels.
+From Verif Require Import Base.Word64 Model.Sketch Model.Bloom Gen.Consts Gen.Kernels.
 Import ListNotations.
 Open Scope Z_scope.
 
@@ -17,6 +17,10 @@ Lemma sync_rehash h : g_rehash h = rehash h.
 Proof. reflexivity. Qed.
 
 Lemma sync_next2Power x : g_next2Power x = next2Power x.
+Proof. reflexivity. Qed.
+
+(* internal/bf/bf.go nextPowerOfTwo *)
+Lemma sync_nextPowerOfTwo i : g_nextPowerOfTwo i = np2 i.
 Proof. reflexivity. Qed.
 
 Lemma sync_masks : c_resetMask = resetMask /\ c_oneMask = oneMask.
